@@ -2,11 +2,20 @@
   LucidProofs.Lemmas.RankShapes — helper lemmas for C08 (documented ranking priorities):
   * `Outranks`, `StrictBefore` and the two constructors `strict_cons_eq` / `strict_cons_gt` that walk down the
     score vector (first differing component decides, larger first);
-  * `wordMatch_disjoint_none` : words over disjoint alphabets are stopped by the Jaccard gate;
-  * `wordMatch_hit`           : an unfinished prefix / a finished equal query word yields the zero-typo pair;
-  * scan steps of `text_match` (`tmScan_skip/miss/hit/joinR`) and the closures that cannot fire
-    (`tryJoinR_none_of_*`, `tryJoinQ_none_of_*`);
-  * `text_match` computed on the hand-specified shapes used by C08.
+  * `JacCapOK` (`JACCARD_THRESHOLD ≤ 1`), `wordMatch_disjoint_none` : words over disjoint alphabets are stopped
+    by the Jaccard gate;
+  * `wordMatch_exact_equal_some` : a finished query word equal to the record word yields the zero-typo pair
+    (finished analogue of `wordMatch_exact_prefix_some`); `Typed` / `wordMatch_hit` / `hitM` : "the query word is
+    typed text for the record word" (unfinished prefix or finished whole word) gives `new_pair(k, k, 0)`;
+  * closures that cannot fire (`tryJoinR_none_of_last/short`, `tryJoinQ_none_of_last/short`, `dist_of_gap`) and
+    the steps of the scan (`tmScan_skip/miss/hit/hit_func/joinR`, `tmQuery_free`);
+  * `join_chars_lt` : when the joined-record-words closure fires on a first word foreign to the query word, the
+    two matches it leaves are worth at most `|q| - 2` characters (`tryJoinR_some_spec`, `splitTypos_fst_pos`);
+  * `typo_chars_lt` : a different, not longer record word scores fewer than `|q|` characters;
+  * `text_match` computed on the hand-specified shapes used by C08 (`textMatch_one`, `textMatch_two_first`,
+    `textMatch_two_second`, `textMatch_twoTwo_both`, `textMatch_twoTwo_first_only`,
+    `textMatch_threeTwo_adjacent`, `textMatch_threeTwo_gap`) and the score vectors of one / two exact matches in
+    the generated order (`scores_single`, `scores_pair`).
 -/
 import LucidProofs.C05
 import LucidProofs.Lemmas.Gates
@@ -710,5 +719,34 @@ theorem textMatch_threeTwo_gap (hdis : ∀ ch ∈ wchars rt b, ch ∉ wchars qt 
     simp [tmCommit, hs1rm, setAt, o1, o2, hb1, hc2]
 
 end threeTwo
+
+/-! ## a different word that is not longer scores fewer characters -/
+
+/-- whatever `word_match` returns for a record word `w` that is not longer than the query word `v` and differs
+    from it, its character score `match_len - 2·⌈typos⌉` is below `|v|` -/
+theorem typo_chars_lt (K : Consts) (hK : CostsOK K = true) {rt qt : Text} {w v : WordShape}
+    (hr : WordIn rt w) (hq : WordIn qt v) (hle : w.len ≤ v.len) (hne : wchars rt w ≠ wchars qt v)
+    {p : WMatch × WMatch} (h : wordMatch K rt w qt v = some p) : scoreChars [p.1] < (v.len : Int) := by
+  refine wordMatch_acc K hK rt w qt v hr hq (fun p => scoreChars [p.1] < (v.len : Int)) ?_ p h
+  intro rs qs acc
+  have hqs : qs ≤ v.len := acc.q_le
+  have hrs : rs ≤ w.len := acc.r_le
+  simp only [scoreChars, newPair, WMatch.matchLen, List.map, List.sum_cons, List.sum_nil, ceilTenths]
+  by_cases hD : D K (cword K qt v) (cword K rt w) qs rs = 0
+  · have hz := (D_eq_zero_iff K (KOK_of_CostsOK K hK) (cword K qt v) (cword K rt w)
+      (cword_aligned K qt v hq.2.2) (cword_aligned K rt w hr.2.2) (cword_costPos K hK qt v) (cword_costPos K hK rt w)
+      qs rs (by rw [cword_len_wordIn K qt v hq]; exact hqs) (by rw [cword_len_wordIn K rt w hr]; exact hrs)).mp hD
+    have hlt : rs < v.len := by
+      apply Decidable.byContradiction
+      intro hge
+      have e1 : qs = v.len := by omega
+      have e2 : w.len = v.len := by omega
+      have := (prefix_eq_iff (cword K qt v) (cword K rt w)).mp
+        ⟨by rw [cword_len_wordIn K qt v hq, cword_len_wordIn K rt w hr, e2],
+         fun k hk => hz.2 k (by rw [cword_len_wordIn K qt v hq] at hk; omega)⟩
+      exact hne this.symm
+    rw [hD]
+    omega
+  · omega
 
 end Lucid
